@@ -80,6 +80,23 @@ def ob_def(dr, dc, S, dform, sform):
     return Obligation("partial_transpose.definition", cfg, build, call, oracle)
 
 
+def ob_scalar_dim(N, d, S, dform):
+    """a single number d for `dim` means local dimensions [d, N/d] (rows and columns alike)"""
+    cfg = {"N": N, "dim_scalar": d, "sys": list(S), "dim_form": dform}
+    dims = [d, N // d]
+
+    def build(b):
+        return {"X": b.array("X", (N, N), "e")}
+
+    def call(i):
+        darg = {"int": d, "float": float(d), "list1": [d], "array1": np.array([d])}[dform]
+        return partial_transpose(i["X"], list(S), darg)
+
+    def oracle(i):
+        return oracle_pt(i["X"], dims, dims, S)
+    return Obligation("partial_transpose.scalar_dim_means_[d,N/d]", cfg, build, call, oracle)
+
+
 def ob_default(d):
     cfg = {"d": d}
 
@@ -212,6 +229,10 @@ def obligations(tier):
                         obs.append(ob_algebra(dr, dc, S))
     for d in [2, 3] + ([4, 5] if T else [4]):
         obs.append(ob_default(d))
+    for N, d in [(4, 2), (6, 2), (6, 3), (8, 2), (8, 4), (9, 3), (12, 3), (12, 4), (6, 1), (6, 6)] + ([(15, 3), (15, 5), (16, 2), (16, 8)] if T else []):
+        for S in ([0], [1], [0, 1]):
+            for dform in (("int", "float", "list1", "array1") if (T or N <= 8) else ("int",)):
+                obs.append(ob_scalar_dim(N, d, S, dform))
     # realignment
     # local dimensions >= 2 only: that is the property's quantifier for realignment (dimension-1 factors make the
     # swap / partial_transpose chain hit the vector branch of permute_systems; not claimed, see DESIGN.md false alarms)
